@@ -97,6 +97,7 @@ structure JS where
   com : Nat → Nat → Nat → Int := fun _ _ _ => 0    -- the committed content (parent state)
   base : Nat → Nat → Nat := fun _ _ => 0           -- data.NewestRecords[type].Version (parent state)
   next : Nat → Nat → Nat := fun _ _ => 0           -- Account.newestRecords[type] (provisional counter)
+  rootZero : Nat → Nat → Bool := fun _ _ => true   -- (account, content type): the committed trie root is the ZERO hash
   logs : List Log := []                            -- LogProcessor.changeLogs, oldest first
 
 def upd3 (f : Nat → Nat → Nat → Int) (a t e : Nat) (v : Int) : Nat → Nat → Nat → Int :=
@@ -199,10 +200,15 @@ def IsChangeOrder (π : List (Nat × Int)) (rate : Int) (j : List Log) : Prop :=
 /-- the tries `Account.updateTrie` rewrites, in code order: (type of the content logs, type of the root log) -/
 def rootPairs : List (Nat × Nat) := [(2, 3), (4, 6), (8, 9), (10, 11)]
 
-/-- did the trie content of `(a, t)` change: some key written in this block now reads differently from the committed
-    content (`StorageCache.Update` writes the dirty entries; an entry rewritten to its old value leaves the root alone) -/
+/-- does `StorageCache.Update` return another root for the trie of `(a, t)`:
+    * committed root = the zero hash (the account never had such a trie): `Update` returns the zero hash only when NO entry
+      is dirty; any setter call of the type — even one that writes nil over nothing, whose log removeUnchanged drops —
+      opens an empty trie and returns the EMPTY-TRIE hash, which differs from the zero hash: a root log is published;
+    * otherwise: some key written in this block now reads differently from the committed content (an entry rewritten to
+      its old value leaves the root alone). -/
 def contentChanged (s : JS) (a t : Nat) : Bool :=
-  s.logs.any (fun l => l.addr == a && l.ty == t && s.cell a t l.extra != s.com a t l.extra)
+  if s.rootZero a t then s.logs.any (fun l => l.addr == a && l.ty == t)
+  else s.logs.any (fun l => l.addr == a && l.ty == t && s.cell a t l.extra != s.com a t l.extra)
 
 /-- the root logs `Finalise` pushes for account `a`. Their version is taken from the PROVISIONAL counter and is never
     recorded (updateVersion only walks the logs grouped before the push) — modelled as coded. The root hashes themselves
@@ -256,6 +262,7 @@ def JS.commit (s : JS) (renumbered : List Log) : JS :=
   let saved := fun a => renumbered.any (fun l => l.addr == a)
   let cell := fun a t e => if saved a then s.cell a t e else s.com a t e
   let base := fun a t => recordAfter s renumbered a t
-  { cell := cell, com := cell, base := base, next := base, logs := [] }
+  let rz := fun a t => if saved a && s.logs.any (fun l => l.addr == a && l.ty == t) then false else s.rootZero a t
+  { cell := cell, com := cell, base := base, next := base, rootZero := rz, logs := [] }
 
 end LemoModel.MergeOrder
